@@ -745,15 +745,20 @@ fn c25_prefix_sweep() -> i32 {
         V::Blob(vec![]), V::Blob(vec![0xFF; 9]), V::Blob((0..=255u8).collect()),
         V::List(vec![]), V::List(vec![V::Int(1)]), V::List(vec![V::DateTime(5)]), V::List(vec![V::Float(2.0), V::String("s".into()), V::Bool(true)]),
         V::List(vec![V::List(vec![V::List(vec![V::Int(3), V::Null])]), V::Blob(vec![7; 20])]),
-        V::Map(BTreeMap::new()), V::Map(m1), V::Map(m2),
+        V::Map(BTreeMap::new()), V::Map(m1.clone()), V::Map(m2.clone()),
+        // maps: empty key, keys of 255 / 256 bytes, non-ASCII keys, keys that differ only in length, every value kind, maps inside lists inside maps
+        V::Map([(String::new(), V::Null), ("a".to_string(), V::Bool(true)), ("aa".to_string(), V::Float(-0.0)), ("\u{e9}".to_string(), V::Blob(vec![0, 255]))].into_iter().collect()),
+        V::Map([("k".repeat(255), V::Int(1)), ("k".repeat(256), V::Int(2)), ("z".to_string(), V::DateTime(3))].into_iter().collect()),
+        V::Map([("outer".to_string(), V::List(vec![V::Map(m1.clone()), V::List(vec![V::Map(m2.clone())]), V::String("tail".into())]))].into_iter().collect()),
+        V::List(vec![V::Map(m1), V::Map(BTreeMap::new()), V::Map(m2)]),
     ];
     let mut n = 0usize;
     for v in &corpus {
         let enc = v.encode();
-        let whole = std::panic::catch_unwind(|| V::decode(&enc).map(|d| d.encode()));
+        let whole = std::panic::catch_unwind(|| V::decode(&enc).map(|d| (d.encode(), format!("{:?}", d))));
         match whole {
-            Ok(Ok(e2)) if e2 == enc => {}
-            Ok(Ok(_)) => { println!("VIOLATION reproduced: decode(encode(v)) encodes to different bytes for v = {:?}", v); return 1; }
+            Ok(Ok((e2, shown))) if e2 == enc && shown == format!("{:?}", v) => {}
+            Ok(Ok((_, shown))) => { println!("VIOLATION reproduced: decode(encode(v)) is {} for v = {:?}", shown, v); return 1; }
             Ok(Err(e)) => { println!("VIOLATION reproduced: decode(encode(v)) failed with {:?} for v = {:?}", e, v); return 1; }
             Err(_) => { println!("VIOLATION reproduced: decode(encode(v)) panicked for v = {:?}", v); return 1; }
         }
